@@ -1,11 +1,17 @@
 (* C14 — pinned statements: each theorem of Props/C14.v must still have exactly this statement. *)
 From Coq Require Import String List ZArith QArith Bool.
 From NV Require Import Surface.Ast Surface.Indent Surface.Print Surface.Parse Surface.TableWf
-  Surface.Refuted Gen.OpTable Props.C14.
+  Surface.RoundTrip Surface.Examples Surface.Refuted Gen.OpTable Props.C14.
 Import ListNotations.
 Open Scope string_scope.
 
 Check (C14_op_table_wf : table_ok binops prefixops max_level primops op_spelling infix_ops postfix_ops = true).
+Check (C14_parse_print_core :
+  forall t, core infix_ops repaired_code t -> pa repaired_code (pr repaired_code t) = Some t).
+Check (C14_print_fixpoint_core :
+  forall t t', core infix_ops repaired_code t ->
+    pa repaired_code (pr repaired_code t) = Some t' -> pr repaired_code t' = pr repaired_code t).
+Check (C14_core_nonvacuous : core infix_ops repaired_code ex_core).
 Check (C14_number_print_refuted :
   pa only_num (pr only_num w_number) = Some (Num (123456789012345700000000000000 # 1))).
 Check (C14_annotated_in_type_position_refuted :
